@@ -476,6 +476,14 @@ pub fn replay(case: &Value) -> Option<Violation> {
             observed: detail,
         });
     }
+    if case.get("safety_only").is_some() {
+        let src = case.get("src")?.as_str()?;
+        let o = run_eval(src, &RunCfg { budget: VM_BUDGET, audit_heap: true });
+        if o.outcome.is_crash() || !o.events.is_empty() || o.heap.dead_in_result > 0 {
+            return Some(Violation { property: "C03".into(), driver: "replay".into(), class: "unsafe-in-unspecified-program".into(), case: case.clone(), expected: "no freed object is observed".into(), observed: o.render() });
+        }
+        return None;
+    }
     replay_src("C03", case)
 }
 
@@ -544,7 +552,11 @@ pub fn run_alloc_tapes(r: &mut Report, cfg: &DiffCfg, known: &[KnownFinding]) {
                 if !shrinking {
                     r.count(&format!("discard:{}", why.split(':').next().unwrap_or(why)));
                 }
-                Ok(())
+                // the value may be unspecified (e.g. U1), memory safety never is: no freed object may be observed
+                match &out.obs {
+                    Some(o) if o.outcome.is_crash() || !o.events.is_empty() || o.heap.dead_in_result > 0 => Err("unsafe-in-unspecified-program".to_string()),
+                    _ => Ok(()),
+                }
             }
             Verdict::Violation { class, .. } => {
                 let case = json!({"src": out.src});
@@ -561,12 +573,32 @@ pub fn run_alloc_tapes(r: &mut Report, cfg: &DiffCfg, known: &[KnownFinding]) {
     });
     if let Some((tape, _)) = fail {
         let (prog, _) = crate::gen::gen_program(&tape, &profile);
-        if let Verdict::Violation { class, .. } = diff_program(&prog).verdict {
+        let first = diff_program(&prog);
+        if let Verdict::Violation { class, .. } = first.verdict {
             let cls = class.clone();
             let small = crate::minimize::minimize(&prog, &mut |p| matches!(diff_program(p).verdict, Verdict::Violation { class: c, .. } if c == cls), 3000);
             let out = diff_program(&small);
             if let Verdict::Violation { class, expected, observed } = out.verdict {
                 r.violation(Violation { property: prop.into(), driver: cfg.driver.into(), class, case: json!({"src": out.src, "tape": hex(&tape), "profile": profile.name}), expected, observed });
+            }
+        } else if let Some(o) = &first.obs {
+            // unsafe behaviour of a program whose value is unspecified
+            if o.outcome.is_crash() || !o.events.is_empty() || o.heap.dead_in_result > 0 {
+                let unsafe_ = |p: &crate::ast::BlockStmt| {
+                    let d = diff_program(p);
+                    matches!(d.verdict, Verdict::Discard(_)) && d.obs.map(|o| o.outcome.is_crash() || !o.events.is_empty() || o.heap.dead_in_result > 0).unwrap_or(false)
+                };
+                let small = crate::minimize::minimize_any(&prog, &mut |p| unsafe_(p), 2000);
+                let out = diff_program(&small);
+                let o2 = out.obs.unwrap_or_else(|| o.clone());
+                r.violation(Violation {
+                    property: prop.into(),
+                    driver: cfg.driver.into(),
+                    class: "unsafe-in-unspecified-program".into(),
+                    case: json!({"src": out.src, "safety_only": true}),
+                    expected: "no freed object is observed, whatever the program's value is".into(),
+                    observed: o2.render(),
+                });
             }
         }
     }
